@@ -103,10 +103,23 @@ structure Fixes where
   d52 : Bool := false     -- an *old* object that belongs to another module is never modified
   deriving Repr, Inhabited, DecidableEq
 
+/-- The *exact* type of an object when it is not the default one of its kind: a class whose metaclass is not `type`
+    (abc.ABCMeta, enum.EnumMeta, a metaclass defined in the reloaded module), a dict whose type is a dict subclass
+    (OrderedDict, defaultdict, Counter).  `Obj.kind` is the root of the lattice (`isinstance(x, type)`,
+    `isinstance(x, dict)`), `DynTy` the leaf (`type(x)`).  Types never change while livepatch runs, so the table is
+    read-only context. -/
+inductive DynTy where
+  | foreign (name : Str)      -- a type that does not belong to the module being reloaded
+  | heap (c : Id)             -- a class object of the heap (e.g. an in-module metaclass)
+  deriving Repr, DecidableEq, Inhabited
+
+def dynOf (dyn : List (Id × DynTy)) (i : Id) : Option DynTy := (dyn.find? (fun e => e.1 = i)).map (·.2)
+
 structure Ctx where
   modname : Option Str
   sysmods : List (Str × Id)      -- sys.modules while livepatch runs
   fx : Fixes := {}
+  dyn : List (Id × DynTy) := []
   deriving Repr, Inhabited
 
 def M (α : Type) := St → Except Err (α × St)
@@ -182,10 +195,12 @@ def forEach (f : α → M Unit) : List α → M Unit
 /-! ### pure helpers over the heap -/
 
 /-- `type(a) is type(b)` -/
-def sameType (h : List Obj) (a b : Id) : Bool :=
+def sameType (dyn : List (Id × DynTy)) (h : List Obj) (a b : Id) : Bool :=
   match h[a]?, h[b]? with
   | some (.inst c _ _), some (.inst c' _ _) => c == c'
   | some (.atom t _), some (.atom t' _) => t == t'
+  | some (.cls ..), some (.cls ..) => dynOf dyn a == dynOf dyn b        -- same metaclass
+  | some (.dict _), some (.dict _) => dynOf dyn a == dynOf dyn b        -- same dict (sub)class
   | some x, some y => x.kind == y.kind && x.kind != .inst && x.kind != .atom
   | _, _ => false
 
@@ -199,7 +214,8 @@ def defModule (h : List Obj) (i : Id) : Option Str :=
     | _ => none
   | _ => none
 
-/-- `isinstance(v, (FunctionType, MethodType, type, dict))` -/
+/-- `isinstance(v, (FunctionType, MethodType, type, dict))` — by *kind*, i.e. including every subclass: a class with any
+    metaclass, an instance of any dict subclass.  (It deliberately does not look at the exact type `dynOf`.) -/
 def updatable (h : List Obj) (i : Id) : Bool :=
   match h[i]? with
   | some o => o.kind == .func || o.kind == .meth || o.kind == .cls || o.kind == .dict
@@ -217,18 +233,18 @@ def cellContent (h : List Obj) (c : Id) : Option Id :=
   | some (.cell v) => some v
   | _ => none
 
-def cellsCompat (h : List Obj) : List Id → List Id → Bool
+def cellsCompat (dyn : List (Id × DynTy)) (h : List Obj) : List Id → List Id → Bool
   | ca :: as, cb :: bs =>
     (match cellContent h ca, cellContent h cb with
-     | some a, some b => sameType h a b && (updatable h a || cellEq h a b)
-     | _, _ => false) && cellsCompat h as bs
+     | some a, some b => sameType dyn h a b && (updatable h a || cellEq h a b)
+     | _, _ => false) && cellsCompat dyn h as bs
   | _, _ => true
 
 /-- all the conditions under which `_livepatch__function` patches in place -/
-def funcCompat (h : List Obj) (old new : Id) : Bool :=
+def funcCompat (dyn : List (Id × DynTy)) (h : List Obj) (old new : Id) : Bool :=
   match h[old]?, h[new]? with
   | some (.func n _ _ _ _ _ c fv), some (.func n' _ _ _ _ _ c' fv') =>
-    n == n' && c.length == c'.length && fv == fv' && cellsCompat h c c'
+    n == n' && c.length == c'.length && fv == fv' && cellsCompat dyn h c c'
   | _, _ => false
 
 /-- first class, searching depth-first along the bases, whose own dict has `key` (stands for the MRO lookup) -/
@@ -383,7 +399,7 @@ def lpFunction (cx : Ctx) (rec : Rec) (vs : List Id) (old new : Id) : M Id := do
   match o, n with
   | .func _ _ _ _ _ od oc _, .func _ _ ncode ndef ndoc nd nc _ => do
     let s ← getSt
-    if !funcCompat s.heap old new then pure new else lpFunctionBody cx rec vs old ncode ndef ndoc od nd oc nc
+    if !funcCompat cx.dyn s.heap old new then pure new else lpFunctionBody cx rec vs old ncode ndef ndoc od nd oc nc
   | _, _ => fail .stuck
 
 /-- `_livepatch__method`: goes straight to `_livepatch__function` (no visit-stack check, no cache) -/
@@ -508,6 +524,15 @@ def lpModule (rec : Rec) (vs : List Id) (old new : Id) : M Id := do
     if r = d then pure old else fail .assertion
   | _, _ => fail .stuck
 
+/-- the class object that is `type(obj)`, when it lives in the heap: an instance's class, a class's in-module
+    metaclass, a dict-subclass instance's in-module class -/
+def typeClassOf (dyn : List (Id × DynTy)) (o : Obj) (i : Id) : Option Id :=
+  match o with
+  | .inst c _ _ => some c
+  | _ => match dynOf dyn i with
+    | some (.heap c) => some c
+    | _ => none
+
 /-- which handler `do_livepatch` picks; `none` = give up and return `new` -/
 def resolveKind (cx : Ctx) (rec : Rec) (vs : List Id) (old new : Id) (assumeModule : Bool) : M (Option Kind) := do
   let o ← getObj old
@@ -516,9 +541,9 @@ def resolveKind (cx : Ctx) (rec : Rec) (vs : List Id) (old new : Id) (assumeModu
   if cx.modname.isSome && (defModule s.heap new).isSome && defModule s.heap new != cx.modname then pure none
   else if cx.fx.d52 && (cx.modname.isSome && (defModule s.heap old).isSome && defModule s.heap old != cx.modname) then pure none
   else if assumeModule then pure (some .module)
-  else if sameType s.heap old new then pure (some o.kind)
-  else match o, n with
-    | .inst c _ _, .inst c' _ _ => do
+  else if sameType cx.dyn s.heap old new then pure (some o.kind)
+  else match typeClassOf cx.dyn o old, typeClassOf cx.dyn n new with
+    | some c, some c' => do
       let co ← getObj c
       let cn ← getObj c'
       match co, cn with
@@ -535,7 +560,7 @@ def resolveKind (cx : Ctx) (rec : Rec) (vs : List Id) (old new : Id) (assumeModu
               | .dict e =>
                 if alookup nmn e = some c' then do
                   let r ← rec vs c c'
-                  if r = c then pure (some .inst) else pure none
+                  if r = c then pure (some o.kind) else pure none
                 else pure none
               | _ => fail .stuck
             | _ => fail .stuck
@@ -597,6 +622,7 @@ structure ReloadIn where
   mtime : Obj                 -- the float stored into `__loadtime__`
   fuel : Nat
   fx : Fixes := {}
+  dyn : List (Id × DynTy) := []
   deriving Repr, Inhabited
 
 def restore (name : Str) (saved : Option Id) (sm : List (Str × Id)) : List (Str × Id) :=
@@ -617,7 +643,7 @@ def xreload (w : World) (i : ReloadIn) : World × Except Err Id :=
   | .ok objs =>
     let sm1 := aset i.name newMod w.sysmods
     let h1 := w.heap ++ objs
-    let cx : Ctx := { modname := some i.name, sysmods := sm1, fx := i.fx }
+    let cx : Ctx := { modname := some i.name, sysmods := sm1, fx := i.fx, dyn := i.dyn }
     match lp cx i.fuel true [] i.module newMod { heap := h1, cache := [] } with
     | .error e => ({ heap := h1, sysmods := restore i.name saved sm1 }, .error e)   -- heap of the failed attempt is lost to the model
     | .ok (r, s) =>
